@@ -166,8 +166,14 @@ class MergeAI:
                 for c in (('<', '=', '>') if st.cmp is None else (st.cmp,)):
                     outs.append((c in sat, st.rep(cmp=c)))
                 return outs
-            # sortedness guards `new <= last` etc.: nondeterministic (a True outcome leads to the raise)
-            return [(True, st), (False, st)]
+            # sortedness guards `new <= last` etc.: nondeterministic (a True outcome leads to the raise); the fetched element counts as checked
+            names = {x.id for x in ast.walk(e) if isinstance(x, ast.Name)}
+            st2 = st
+            for v in list(names):
+                sd = self.fetched.get(v)
+                if sd and st.get('@unchk:' + v) and self.cur[sd] in names and isinstance(op, (ast.LtE, ast.GtE, ast.Lt, ast.Gt)):
+                    st2 = st2.set('@unchk:' + v, False)
+            return [(True, st2), (False, st2)]
         if isinstance(e, ast.Call):
             return [(True, st), (False, st)]
         return [(True, st), (False, st)]
@@ -213,15 +219,20 @@ class MergeAI:
                     if st.get(self.exh[side]):
                         return [(st, 'stop:' + side)]
                     if tgt.id in self.cur.values():
-                        return [(self.advance(st, side, direct=True), 'n'), (st, 'stop:' + side)]
+                        if st.get('@started:' + side):
+                            self.problems.append((n, f'a further {side} element becomes the current one straight from next() without the sortedness/uniqueness check against its predecessor'))
+                        return [(self.advance(st, side, direct=True).set('@started:' + side, True), 'n'), (st, 'stop:' + side)]
                     self.fetched[tgt.id] = side
-                    return [(st, 'n'), (st, 'stop:' + side)]
+                    return [(st.set('@unchk:' + tgt.id, True), 'n'), (st, 'stop:' + side)]
                 if tgt.id in self.cur.values() and isinstance(val, ast.Name):
                     # last_<side> = new   (the element fetched by the preceding next() of the same side)
                     side = 'left' if tgt.id == self.cur['left'] else 'right'
                     if self.fetched.get(val.id) != side:
                         self.problems.append((n, f'the current {side} element is overwritten with `{val.id}`, which was not fetched from the {side} iterator'))
-                    return [(self.advance(st, side), 'n')]
+                    if st.get('@unchk:' + val.id):
+                        self.problems.append((n, f'`{val.id}` becomes the current {side} element without having been compared with its predecessor (`new <= last -> ValueError`): '
+                                                 'unsorted or repeated input is silently misclassified'))
+                    return [(self.advance(st, side).set('@unchk:' + val.id, False).set('@started:' + side, True), 'n')]
                 if tgt.id in self.boolnames:
                     outs = []
                     for v, s2 in self.ev(val, st):
@@ -264,6 +275,32 @@ class MergeAI:
             return outs
         if isinstance(n, ast.While):
             return self.loop_fix(n, st)
+        if isinstance(n, ast.For) and isinstance(n.iter, ast.Name) and n.iter.id in (self.itl, self.itr) and isinstance(n.target, ast.Name):
+            # for <v> in <side iterator>: body   ==   repeatedly  v = next(it)  until StopIteration
+            side = 'left' if n.iter.id == self.itl else 'right'
+            seen, work, exits = set(), [st], []
+            fetch = ast.copy_location(ast.Assign(targets=[ast.Name(id=n.target.id, ctx=ast.Store())],
+                                                 value=ast.Call(func=ast.Name(id='next', ctx=ast.Load()), args=[ast.Name(id=n.iter.id, ctx=ast.Load())], keywords=[])), n)
+            while work:
+                s0 = work.pop()
+                if s0 in seen:
+                    continue
+                seen.add(s0)
+                if len(seen) > MAXSTATES:
+                    raise AIError('state explosion in a for loop over an input iterator')
+                for s1, fl in self.stmt(fetch, s0):
+                    if fl.startswith('stop:'):
+                        exits.extend(self.block(n.orelse, [s1]) if n.orelse else [(s1, 'n')])
+                        continue
+                    for s2, fl2 in self.block(n.body, [s1.rep(adv=frozenset(), y=()).set('@drained', True)]):
+                        s2 = s2.rep(y=(), adv=frozenset())
+                        if fl2 in ('n', 'continue'):
+                            work.append(s2)
+                        elif fl2 == 'break':
+                            exits.append((s2, 'n'))
+                        else:
+                            exits.append((s2, fl2))
+            return exits
         if isinstance(n, ast.Assert):
             return [(st, 'n')]
         if isinstance(n, (ast.FunctionDef, ast.AsyncFunctionDef)):
@@ -356,7 +393,9 @@ class MergeAI:
                             self.problems.append((loop, 'the generator returns from inside the loop with an unclassified current element'))
                         continue
                     # end of one iteration (normal / continue) or break
-                    if len(s2.y) != 1:
+                    if s2.get('@drained'):
+                        pass  # an inner loop drained one side: classification is tracked element by element (pending/yielded bookkeeping)
+                    elif len(s2.y) != 1:
                         self.problems.append((loop, f'an iteration of the merge loop yields {len(s2.y)} element(s) instead of exactly one (abstract state at its start: '
                                                     f'left exhausted={s1.get(self.exh["left"])}, right exhausted={s1.get(self.exh["right"])})'))
                     else:
@@ -373,7 +412,7 @@ class MergeAI:
                     if fl == 'break':
                         exits.append((s2, 'n'))
                     else:
-                        work.append(s2.rep(y=(), adv=frozenset()))
+                        work.append(s2.rep(y=(), adv=frozenset()).set('@drained', False))
         self.in_loop = False
         return exits
 
